@@ -61,6 +61,7 @@ type Gen struct {
 
 	stepVals        map[string][2]T
 	errSt           State
+	volatile        map[string]bool
 	frameStructural map[string]bool
 	errQuantDone    bool
 	notes           map[string]bool
@@ -118,6 +119,7 @@ func (g *Gen) reset() {
 	g.deferSt = nil
 	g.modelVars = nil
 	g.stepVals = nil
+	g.volatile = nil
 	g.frameStructural = map[string]bool{}
 }
 
@@ -252,6 +254,13 @@ func (g *Gen) elemOf(t types.Type) (*Sort, types.Type) {
 
 func (g *Gen) importedPkg(from *types.Package, name string) *types.Package {
 	if from != nil {
+		if path, ok := g.prog.aliases[from.Path()][name]; ok {
+			for _, imp := range from.Imports() {
+				if imp.Path() == path {
+					return imp
+				}
+			}
+		}
 		for _, imp := range from.Imports() {
 			if imp.Name() == name {
 				return imp
